@@ -89,7 +89,7 @@ def cases(tier, seed):
     for i in range(n):
         out.append({'name': 'schedule-%d' % i, 'kind': 'schedule',
                     'seed': [seed, 162, i]})
-    n = 4 if tier == 'quick' else 60
+    n = 6 if tier == 'quick' else 80
     for i in range(n):
         out.append({'name': 'fresh-%d' % i, 'kind': 'fresh',
                     'seed': [seed, 163, i]})
@@ -133,7 +133,9 @@ def build_problem(rng, small=False):
                               'average': True, 'maximum': True,
                               'pins': bool(feats['pin']),
                               'pressure_drop': True,
-                              'gap': P['gap_model'] != 'none'}
+                              'gap': P['gap_model'] != 'none',
+                              'gap_fine': bool(P['gap_model'] != 'none'
+                                               and rng.random() < 0.5)}
     if rng.random() < 0.5:
         P['setup_sub']['Dump']['interval'] = 0.05
     P['setup'].pop('param_update_tol', None)
@@ -194,6 +196,16 @@ def fields(r):
 def run_history(case, res):
     rng = np.random.default_rng(case['seed'])
     P, feats = build_problem(rng)
+    if rng.random() < 0.4:
+        # the same problem written in user units (the parsed input then
+        # holds converted values and materials created before conversion)
+        from vmon.oracle import c17_units as U
+        u = U.Units(length=wl.choose(rng, ['m', 'cm', 'in']),
+                    temp=wl.choose(rng, ['C', 'F', 'C', 'K']),
+                    mass=wl.choose(rng, ['kg', 'lb']),
+                    time=wl.choose(rng, ['s', 'hr']))
+        P = U.convert_problem(P, u)
+        feats['units'] = u.name
     key = {'pin': feats['pin'], 'hotspot': bool(feats.get('hotspot'))}
     with drive.scratch() as d:
         path = gen.render(P, d)
@@ -272,6 +284,7 @@ def run_history(case, res):
     res.tag('bc=%s' % '+'.join(sorted(set(k for q in P['positions'] for k in ('flowrate', 'outlet_temp', 'delta_temp') if k in q))))
     res.tag('pin=%s' % feats['pin'])
     res.tag('assembly_tables=%s' % bool(feats.get('tables')))
+    res.tag('units=%s' % ('SI' if not feats.get('units') else 'user'))
     res.tag('hotspot=%s' % bool(feats.get('hotspot')))
     if feats['pin']:
         res.nontrivial(repr(sorted((k, str(v)) for k, v in feats.items())))
@@ -446,6 +459,20 @@ def run_fresh(case, res):
             if rc != 0:
                 raise drive.Rejected('cli', [('ERROR', log[-300:])])
             outs.append(collect(d))
+            if hs == 1:
+                # ... and once more in the same directory (the natural way
+                # to repeat a run): result files are replaced, not extended
+                rc, log = run_cli(d, 'input.txt', 7)
+                again = collect(d) if rc == 0 else {}
+                bad = [f for f in outs[0] if again.get(f) != outs[0][f]]
+                res.check('H4b_rerun_in_same_directory_bitwise',
+                          rc == 0 and not bad and
+                          sorted(again) == sorted(outs[0]),
+                          'second execution in the same directory differs '
+                          'from the first in %r (exit %d)' % (bad[:5], rc),
+                          {'pin': feats['pin'],
+                           'dump_gap_fine': bool(P['setup_sub']['Dump'].get(
+                               'gap_fine'))})
     diffs = [f for f in outs[0] if outs[1].get(f) != outs[0][f]]
     res.check('H4_fresh_process_bitwise', not diffs and
               sorted(outs[0]) == sorted(outs[1]),
